@@ -169,14 +169,22 @@ func genStore(rng *rand.Rand, uncompressed bool, local bool) (objs []object, ids
 }
 
 type backend struct {
-	kind string
-	dir  string
-	s3   *fakes.S3
+	kind   string
+	dir    string
+	s3     *fakes.S3
+	prefix string // S3 key prefix without trailing slash ("" = none)
+}
+
+func (b *backend) pfx() string {
+	if b.prefix == "" {
+		return ""
+	}
+	return b.prefix + "/"
 }
 
 func (b *backend) put(o object) {
 	if b.s3 != nil {
-		b.s3.Put("pfx/"+o.key, o.data)
+		b.s3.Put(b.pfx()+o.key, o.data)
 		return
 	}
 	dsu.WriteFile(filepath.Join(b.dir, o.key), o.data)
@@ -187,7 +195,7 @@ func (b *backend) list() map[string][]byte {
 	if b.s3 != nil {
 		for _, k := range b.s3.Keys() {
 			d, _ := b.s3.Get(k)
-			out[strings.TrimPrefix(k, "pfx/")] = d
+			out[strings.TrimPrefix(k, b.pfx())] = d
 		}
 		return out
 	}
@@ -218,6 +226,7 @@ func run(c *harness.Ctx, i int) {
 	os.MkdirAll(b.dir, 0755)
 	if kind == "s3" {
 		b.s3 = fakes.NewS3("bucket")
+		b.prefix = []string{"pfx", "store", "cache/2020", "v1", "", "abcdef"}[rng.Intn(6)]
 		defer b.s3.Close()
 	}
 	objs, ids := genStore(rng, uncompressed, strings.HasPrefix(kind, "local"))
@@ -285,7 +294,7 @@ func run(c *harness.Ctx, i int) {
 				err = fmt.Errorf("%v: %s", err, out)
 			}
 		case "s3":
-			s, e := desync.NewS3Store(b.s3.URL("pfx"), fakes.Creds(), fakes.Region, opt, fakes.Lookup)
+			s, e := desync.NewS3Store(b.s3.URL(b.prefix), fakes.Creds(), fakes.Region, opt, fakes.Lookup)
 			dsu.Must(e)
 			err = s.Prune(context.Background(), keep)
 		case "sftp":
